@@ -13,6 +13,7 @@ mod c06;
 mod c07;
 mod c08;
 mod c09;
+mod c10;
 mod st;
 
 use common::*;
@@ -41,6 +42,7 @@ fn main() {
     "C07" => c07::run(&ctx),
     "C08" => c08::run(&ctx),
     "C09" => c09::run(&ctx),
+    "C10" => c10::run(&ctx),
     _ => {
       eprintln!("unknown property {}", prop);
       std::process::exit(2);
